@@ -4,7 +4,7 @@
     Proofs/Writers.v. *)
 From Coq Require Import String List NArith Bool.
 From AGH Require Import Base.FS Proofs.FS Model.Writers Gen.Writers Proofs.Writers Model.SaveLoop Proofs.SaveLoop
-  Proofs.SaveOverlap Proofs.SaveSetUrl Proofs.SaveStatus Proofs.SaveMigrate.
+  Proofs.SaveOverlap Proofs.SaveSetUrl Proofs.SaveStatus Proofs.SaveMigrate Proofs.SaveIds.
 Import ListNotations.
 Local Open Scope N_scope.
 
@@ -875,3 +875,72 @@ Example C14_migration_premises :
                             (visible_pairs s (fst (mig true p false)) 1 2))
           [no_faults; nodir; cutw; nosync] = true.
 Proof. exact migrate_premises. Qed.
+
+(** ** Round 7 (N): the identity of the destination path.  Every list of both
+    arrays is stored at data/filters/<id>.txt, so two lists with one id share a
+    file and the atomic save of one replaces the other's.  As the code is
+    (generator seeded with the clock at every start) and under its ASSUMPTION
+    [clock_ahead] (at every start the clock reads at least every id in use):
+    after any history of starts and add_url calls the ids are pairwise distinct
+    over BOTH arrays, and the id the next add_url hands out is no list's. *)
+Theorem C14_add_never_reuses_a_path : forall ops st,
+  ids_ok st -> clock_ahead st ops -> ids_ok (idrun seed_clock st ops).
+Proof. exact add_never_reuses_a_path. Qed.
+Print Assumptions C14_add_never_reuses_a_path.
+
+Theorem C14_added_id_is_fresh : forall ops st allow,
+  ids_ok st -> clock_ahead st ops ->
+  let st' := idrun seed_clock st ops in
+  ~ In (id_cur st' + 1) (ids_all st') /\ id_cur (idstep seed_clock st' (IAdd allow)) = id_cur st' + 1.
+Proof. exact added_id_is_fresh. Qed.
+Print Assumptions C14_added_id_is_fresh.
+
+(** REFUTED variant (generator seeded with the largest BLOCK-list id): an
+    allow list with the id just above it, a start, add_url of a block list:
+    two lists, one file. *)
+Theorem C14_seed_max_block_reuses_a_path : forall st now,
+  In (lmax (ids_block st) + 1) (ids_allow st) ->
+  let st' := idrun seed_max_block st [IRestart now; IAdd false] in
+  ~ NoDup (ids_all st') /\ In (lmax (ids_block st) + 1) (ids_block st') /\ In (lmax (ids_block st) + 1) (ids_allow st').
+Proof. exact seed_max_block_reuses_a_path. Qed.
+Print Assumptions C14_seed_max_block_reuses_a_path.
+
+(** Witness (block 1, 2; allow 3) and: the assumption is needed (a clock
+    reading 2 at the start gives the same collision with the code as it is). *)
+Example C14_ids_witness :
+  let st := {| ids_block := [1; 2]; ids_allow := [3]; id_cur := 3 |} in
+  ids_ok st /\
+  ids_all (idrun seed_max_block st [IRestart 1790000000; IAdd false]) = [1; 2; 3; 3] /\
+  ids_all (idrun seed_clock st [IRestart 1790000000; IAdd false; IAdd true]) = [1; 2; 1790000001; 3; 1790000002] /\
+  clock_ahead st [IRestart 1790000000; IAdd false; IAdd true] /\
+  (* the assumption is needed: a clock that reads 2 at the start *)
+  ids_all (idrun seed_clock st [IRestart 2; IAdd false]) = [1; 2; 3; 3] /\ ~ clock_ahead st [IRestart 2; IAdd false].
+Proof. exact ids_witness. Qed.
+
+(** ** Round 7 (M): a start computes the checksum of ENABLED lists only.  With
+    no checksum in memory, a set_url that downloads and succeeds leaves no
+    file only when the complete body has the checksum of the empty list; in
+    particular re-enabling a list from a source that serves the stored rules
+    keeps them (replaced by the same contents). *)
+Theorem C14_set_url_unloaded_keeps_rules : forall St st0 feed finish sum s e taken q fd tmp dst src_ok r p rmf restart,
+  quiescent s dst -> fresh_tmp s dst tmp ->
+  downloads e taken q = true -> sum_for e q = 0 ->
+  let x := set_props St st0 feed finish sum true s e taken q fd tmp dst src_ok r p rmf in
+  snd (fst x) = SetOk restart ->
+  live_view (run s (fst (fst x))) dst = Some (concat (fst (pump St feed finish st0 r))) \/
+  (live_view (run s (fst (fst x))) dst = None /\ snd (pump St feed finish st0 r) = true /\
+   sum (concat (fst (pump St feed finish st0 r))) = 0).
+Proof. exact set_url_unloaded_keeps_rules. Qed.
+Print Assumptions C14_set_url_unloaded_keeps_rules.
+
+(** ... and the refuted variant (a start loads disabled lists too): the same
+    call finds "no change" and removes the file, reporting success. *)
+Example C14_reenable_after_restart :
+  let file := [10; 11] in
+  let s := boot [(1, file)] in
+  let entry ld := {| e_url := 7; e_enabled := false; e_sum := start_sum ld len_sum false (Some file) |} in
+  let call ld := su_set true s (entry ld) false {| q_url := 7; q_enabled := true |} 3 2 1 true (serve [[10]; [11]] false) no_faults false in
+  let fin x := live_view (run s (fst (fst x))) 1 in
+  (snd (fst (call false)) = SetOk true /\ fin (call false) = Some file) /\
+  (snd (fst (call true)) = SetOk true /\ fin (call true) = None).
+Proof. exact reenable_after_restart. Qed.
